@@ -252,5 +252,5 @@ func exec(t *testing.T, s Script) *vstat.Violation {
 func TestStreams(t *testing.T) {
 	rig.Certs()
 	col.Mandatory("streams-in-flight-while-fingerprint-frames-arrive", "several-streams")
-	vstat.Run(t, vstat.Spec[Script]{Col: col, Quick: 150, Thorough: 4000, Gen: gen, Exec: func(s Script) *vstat.Violation { return exec(t, s) }})
+	vstat.Run(t, vstat.Spec[Script]{Col: col, Quick: 150, Thorough: 4000, Gen: gen, ScheduleDependent: true, Exec: func(s Script) *vstat.Violation { return exec(t, s) }})
 }
